@@ -88,20 +88,26 @@ def run(ctx):
             okc = good and len(comps) == 2
             if okc:
                 c = comps[k]
-                okc = c[0] == "call" and c[1] == "std::option::Option::<T>::map" and M.noref(M.strip(c[2][0])) == ("field", ("param", 1, rr.local_name(1)), stream)
-                clo = c[2][1] if okc else None
-                okc = okc and clo[0] == "agg" and clo[1][0] == "closure"
-                if okc:
-                    cf = prog.fns[clo[1][1]]
-                    ret = M.Terms(cf).local(0)
-                    okc = ret == ("field", ("param", 1, cf.local_name(1)), "0")
+                # Some(vec) iff self.<stream> is held — written as .map(|_| vec), or as a match / if-let on the field
+                is_stream = lambda x, stream=stream: M.noref(M.strip(x)) == ("field", ("param", 1, rr.local_name(1)), stream)
+                ob_ = option_body(prog, rr, Tr, c, is_stream)
+                okc = ob_ is not None and ob_.none_ok and ob_.form in ("map", "match") and len(ob_.results) == 1
+                if okc and ob_.form == "map":
+                    cf = ob_.fn
+                    okc = ob_.results[0][1] == ("field", ("param", 1, cf.local_name(1)), "0")
                     # the captured vector is the one handed to read_into as `vec`
                     cap_local = None
                     for bb in rr.live_blocks():
                         for s in rr.blocks[bb]["stmts"]:
-                            if s["k"] == "assign" and s["r"]["k"] == "agg" and s["r"]["kind"] == "closure" and s["r"]["closure"] == clo[1][1]:
+                            if s["k"] == "assign" and s["r"]["k"] == "agg" and s["r"]["kind"] == "closure" and s["r"]["closure"] == cf.path:
                                 cap_local = Tr.origin_local(s["r"]["ops"][0])
                     okc = okc and cap_local == vec_slots[vec][1][1]
+                elif okc:
+                    # match form: the payload expression is the vector local itself
+                    v_ = ob_.results[0][1]
+                    okc = v_ == ("local", vec_slots[vec][1][1]) or (Tr.addr_of_term(v_) if hasattr(Tr, "addr_of_term") else None) == vec_slots[vec] or \
+                        any(s_["k"] == "assign" and s_["r"]["k"] == "agg" and s_["r"].get("variant") == "Some" and s_["r"]["ops"] and s_["r"]["ops"][0]["k"] in ("move", "copy")
+                            and Tr.origin_local(s_["r"]["ops"][0]) == vec_slots[vec][1][1] for s_ in rr.blocks[ob_.results[0][0]]["stmts"])
             ctx.ob("R02.2", "read.result.%d=%s.map(%s)" % (k, stream, vec), okc, rr.loc(0), "component %d of the captured pair must be Some(%s) iff self.%s is held" % (k, vec, stream))
         err0 = r0[2][0] if good else None
         ctx.ob("R02.2", "read.error=read_into.err()", good and err0[0] == "call" and err0[1] == "std::result::Result::<T, E>::err" and err0[2][0][0] == "call" and err0[2][0][1] == RI, rr.loc(0), "the error component is read_into's error")
